@@ -768,7 +768,36 @@ impl Monitor for C11 {
         cfg.props = true;
         let extra: Vec<char> = alpha.clone();
         for k in 0..n {
-            let ast = if k % 3 == 0 { gen_shortcut(&mut rng, &cfg) } else { gen_pattern(&mut rng, &cfg) };
+            let ast = if k % 15 == 1 {
+                // a repeated category escape (whose own set is not closed under case) followed by
+                // letters written in the case the category does not contain: under flag i the
+                // repetition has to give characters back to them
+                let cat = |rng: &mut Rng| -> Node {
+                    match rng.below(4) {
+                        0 => Node::Prop(true, "Ll".to_string()),
+                        1 => Node::Prop(true, "Lu".to_string()),
+                        2 => Node::Prop(false, "Lu".to_string()),
+                        _ => Node::Class(ClassExpr { neg: false, items: vec![ClassItem::Prop(true, "Ll".to_string()), ClassItem::Esc('d')], sub: None }),
+                    }
+                };
+                let letter = |rng: &mut Rng| Node::Char(*rng.pick(&alpha));
+                let rep = Node::Repeat { body: Box::new(cat(&mut rng)), min: rng.below(2), max: None, greedy: rng.chance(4, 5), spell: 0 };
+                let follower = match rng.below(3) {
+                    0 => letter(&mut rng),
+                    1 => Node::NcGroup(Box::new(Node::Alt(vec![letter(&mut rng), letter(&mut rng)]))),
+                    _ => Node::Group(Box::new(Node::Alt(vec![Node::Cat(vec![letter(&mut rng), letter(&mut rng)]), letter(&mut rng)]))),
+                };
+                let mut v = vec![rep, follower];
+                if rng.chance(1, 2) {
+                    v.insert(0, Node::Bol);
+                    v.push(Node::Eol);
+                }
+                Node::Cat(v)
+            } else if k % 3 == 0 {
+                gen_shortcut(&mut rng, &cfg)
+            } else {
+                gen_pattern(&mut rng, &cfg)
+            };
             let fl = *rng.pick(&["i", "i", "i", "is", "im", ""]);
             for _ in 0..3 {
                 let inp = gen_input(&mut rng, &ast, &extra, 8);
